@@ -4,39 +4,42 @@ namespace KV.MConn
 open KV
 
 /-- per-channel invariant linking both ends: every message accepted so far is either delivered,
-in flight (`recving ‖ sending` is the message being transferred) or still queued – in order. -/
+in flight (`recving ‖ sending` is the message being transferred – possibly the empty message) or
+still queued – in order. -/
 def Inv (cap : Nat) (c : Chan) : Prop :=
-  (∀ m ∈ c.queue, m ≠ [] ∧ m.length ≤ cap) ∧
-  (c.sending = [] → c.recving = [] ∧ c.enq = c.delivered ++ c.queue) ∧
-  (c.sending ≠ [] → c.enq = c.delivered ++ (c.recving ++ c.sending) :: c.queue ∧
-      (c.recving ++ c.sending).length ≤ cap)
+  (∀ m ∈ c.queue, m.length ≤ cap) ∧
+  (c.sending = none → c.recving = [] ∧ c.enq = c.delivered ++ c.queue) ∧
+  (∀ s, c.sending = some s → c.enq = c.delivered ++ (c.recving ++ s) :: c.queue ∧
+      (c.recving ++ s).length ≤ cap)
 
 theorem inv_init (cap : Nat) : Inv cap {} := by simp [Inv]
 
 theorem inv_isSendPending (cap : Nat) (c : Chan) (h : Inv cap c) :
-    Inv cap (isSendPending c).2 ∧ ((isSendPending c).1 = true → (isSendPending c).2.sending ≠ []) := by
+    Inv cap (isSendPending c).2 ∧
+      ((isSendPending c).1 = true → ∃ s, (isSendPending c).2.sending = some s) ∧
+      ((isSendPending c).1 = false → idle c) := by
   obtain ⟨hq, h0, h1⟩ := h
   unfold isSendPending
-  by_cases hs : c.sending.length = 0
-  · have hs' : c.sending = [] := List.eq_nil_of_length_eq_zero hs
-    obtain ⟨hr, he⟩ := h0 hs'
+  cases hs : c.sending with
+  | none =>
+    obtain ⟨hr, he⟩ := h0 hs
     cases hqq : c.queue with
     | nil =>
-      simp only [hs, if_true]
-      refine ⟨⟨by simp [hqq], fun _ => ⟨hr, he⟩, fun hne => absurd hs' hne⟩, by simp⟩
+      refine ⟨⟨by simp [hqq], fun _ => ⟨hr, he⟩, fun s h => by simp [hs] at h⟩, by simp, fun _ => ⟨hqq, hs⟩⟩
     | cons m q =>
-      simp only [hs, if_true]
       have hm := hq m (by simp [hqq])
-      refine ⟨⟨?_, ?_, ?_⟩, ?_⟩
-      · intro x hx; exact hq x (by simp [hqq, hx])
-      · intro hm0; exact absurd hm0 hm.1
-      · intro _
+      refine ⟨⟨?_, ?_, ?_⟩, ?_, ?_⟩
+      · intro x hx; exact hq x (by simp [hqq]; exact Or.inr hx)
+      · intro h; simp at h
+      · intro s h
+        simp only [Option.some.injEq] at h
+        subst h
         simp only [hr, List.nil_append]
-        exact ⟨by rw [he, hqq], hm.2⟩
-      · intro _; exact hm.1
-  · simp only [hs, if_false]
-    have hne : c.sending ≠ [] := fun h => hs (by simp [h])
-    exact ⟨⟨hq, h0, h1⟩, fun _ => hne⟩
+        exact ⟨by rw [he, hqq], hm⟩
+      · intro _; exact ⟨m, rfl⟩
+      · intro h; simp at h
+  | some s =>
+    refine ⟨⟨hq, h0, h1⟩, fun _ => ⟨s, hs⟩, fun h => by simp at h⟩
 
 /-- what one packet does to the channel: sender's `nextPacketMsg` then receiver's
 `recvPacketMsg` -/
@@ -47,39 +50,54 @@ def transfer (maxSize cap id : Nat) (c : Chan) : Option Chan :=
   | some (some m, r) => some { c1 with recving := r, delivered := c1.delivered ++ [m] }
   | some (none, r) => some { c1 with recving := r }
 
-theorem inv_transfer (maxSize cap id : Nat) (c : Chan) (h : Inv cap c) (hs : c.sending ≠ []) :
+theorem inv_transfer (maxSize cap id : Nat) (c : Chan) (h : Inv cap c) (s : Bytes)
+    (hs : c.sending = some s) :
     ∃ c', transfer maxSize cap id c = some c' ∧ Inv cap c' := by
   obtain ⟨hq, _, h1⟩ := h
-  obtain ⟨he, hcap⟩ := h1 hs
+  obtain ⟨he, hcap⟩ := h1 s hs
   simp only [List.length_append] at hcap
   unfold transfer nextPacket recvPacket
-  by_cases hle : c.sending.length ≤ maxSize
-  · have hmin : min maxSize c.sending.length = c.sending.length := by omega
-    have hnot : ¬ cap < c.recving.length + c.sending.length := by omega
+  simp only [hs, Option.getD_some]
+  by_cases hle : s.length ≤ maxSize
+  · have hmin : min maxSize s.length = s.length := by omega
+    have hnot : ¬ cap < c.recving.length + s.length := by omega
     simp only [hle, if_true, hmin, List.take_length, hnot, if_false]
     refine ⟨_, rfl, hq, ?_, ?_⟩
     · intro _; simp [he]
-    · intro hne; exact absurd rfl hne
-  · have hmin : min maxSize c.sending.length = maxSize := by omega
-    have hnot : ¬ cap < c.recving.length + (c.sending.take maxSize).length := by
+    · intro s' h; simp at h
+  · have hmin : min maxSize s.length = maxSize := by omega
+    have hnot : ¬ cap < c.recving.length + (s.take maxSize).length := by
       simp [List.length_take]; omega
     simp only [hle, if_false, hmin, hnot]
-    have hdrop : c.sending.drop maxSize ≠ [] := by
-      intro h0
-      have := congrArg List.length h0
-      simp at this; omega
     refine ⟨_, rfl, hq, ?_, ?_⟩
-    · intro h0; exact absurd h0 hdrop
-    · intro _
+    · intro h0; simp at h0
+    · intro s' h
+      simp only [Option.some.injEq] at h
+      subst h
       simp only [List.append_assoc, List.take_append_drop, List.length_append]
       exact ⟨he, hcap⟩
+
+/-- `nextPacketMsg` on a message in flight: the last packet -/
+theorem nextPacket_last (maxSize id : Nat) (c : Chan) (s : Bytes) (hs : c.sending = some s)
+    (hle : s.length ≤ maxSize) :
+    nextPacket maxSize id c = (⟨id, true, s⟩, { c with sending := none }) := by
+  have hmin : min maxSize s.length = s.length := by omega
+  simp [nextPacket, hs, hle, hmin]
+
+/-- `nextPacketMsg` on a message in flight: a full packet, more to come -/
+theorem nextPacket_more (maxSize id : Nat) (c : Chan) (s : Bytes) (hs : c.sending = some s)
+    (hgt : ¬ s.length ≤ maxSize) :
+    nextPacket maxSize id c = (⟨id, false, s.take maxSize⟩, { c with sending := some (s.drop maxSize) }) := by
+  have hmin : min maxSize s.length = maxSize := by omega
+  simp [nextPacket, hs, hgt, hmin]
 
 theorem upd_same (f : Nat → Chan) (i : Nat) (c : Chan) : upd f i c i = c := by simp [upd]
 theorem upd_other (f : Nat → Chan) (i j : Nat) (c : Chan) (h : j ≠ i) : upd f i c j = f j := by simp [upd, h]
 
-/-- messages of an action list: non-empty and within the receive capacity of their channel -/
+/-- messages of an action list: within the receive capacity of their channel (empty messages
+included) -/
 def ActsOK (caps : Nat → Nat) (acts : List Act) : Prop :=
-  ∀ i m, Act.send i m ∈ acts → m ≠ [] ∧ m.length ≤ caps i
+  ∀ i m, Act.send i m ∈ acts → m.length ≤ caps i
 
 theorem step_eq_transfer (maxSize : Nat) (caps : Nat → Nat) (s : Sys) (i : Nat)
     (herr : s.err = false) (hp : pending s.ch i = true) :
@@ -98,12 +116,12 @@ theorem step_eq_transfer (maxSize : Nat) (caps : Nat → Nat) (s : Sys) (i : Nat
     | some m => simp
 
 theorem inv_step (maxSize : Nat) (caps : Nat → Nat) (s : Sys) (a : Act)
-    (ha : ∀ i m, a = Act.send i m → m ≠ [] ∧ m.length ≤ caps i)
+    (ha : ∀ i m, a = Act.send i m → m.length ≤ caps i)
     (herr : s.err = false) (hinv : ∀ j, Inv (caps j) (s.ch j)) :
     (step maxSize caps s a).err = false ∧ ∀ j, Inv (caps j) ((step maxSize caps s a).ch j) := by
   cases a with
   | send i m =>
-    obtain ⟨hm0, hmc⟩ := ha i m rfl
+    have hmc := ha i m rfl
     refine ⟨by simpa [step] using herr, ?_⟩
     intro j
     simp only [step]
@@ -116,19 +134,19 @@ theorem inv_step (maxSize : Nat) (caps : Nat → Nat) (s : Sys) (a : Act)
         simp only [List.mem_append, List.mem_singleton] at hx
         rcases hx with hx | hx
         · exact hq x hx
-        · subst hx; exact ⟨hm0, hmc⟩
+        · subst hx; exact hmc
       · intro hs
         obtain ⟨hr, he⟩ := h0 hs
         exact ⟨hr, by simp [he]⟩
-      · intro hs
-        obtain ⟨he, hc⟩ := h1 hs
+      · intro s' hs
+        obtain ⟨he, hc⟩ := h1 s' hs
         exact ⟨by simp [he], hc⟩
     · rw [upd_other _ _ _ _ hj]; exact hinv j
   | pkt i =>
     have hsw : ∀ j, Inv (caps j) (sweep s.ch j) := fun j => (inv_isSendPending _ _ (hinv j)).1
     by_cases hp : pending s.ch i = true
-    · have hne : (sweep s.ch i).sending ≠ [] := (inv_isSendPending _ _ (hinv i)).2 hp
-      obtain ⟨c', hc', hinv'⟩ := inv_transfer maxSize (caps i) i _ (hsw i) hne
+    · obtain ⟨sd, hsd⟩ : ∃ sd, (sweep s.ch i).sending = some sd := (inv_isSendPending _ _ (hinv i)).2.1 hp
+      obtain ⟨c', hc', hinv'⟩ := inv_transfer maxSize (caps i) i _ (hsw i) sd hsd
       obtain ⟨h1, h2⟩ := (step_eq_transfer maxSize caps s i herr hp).1 c' hc'
       refine ⟨h2, ?_⟩
       intro j
@@ -182,7 +200,7 @@ theorem step_enq (maxSize : Nat) (caps : Nat → Nat) (s : Sys) (a : Act) (j : N
       by_cases hp : pending s.ch i = true
       · simp only [hp, if_true]
         have hnp : ∀ c : Chan, (nextPacket maxSize i c).2.enq = c.enq := by
-          intro c; unfold nextPacket; split <;> rfl
+          intro c; simp only [nextPacket]; split <;> rfl
         by_cases hj : j = i
         · subst hj
           cases hr : recvPacket (caps j) (nextPacket maxSize j (sweep s.ch j)).2.recving
@@ -228,5 +246,139 @@ theorem recvPacket_cap (cap : Nat) (recving : Bytes) (p : Packet) (m : Bytes) (r
       subst h1
       exact ⟨by simp; omega, rfl, h2.symm⟩
     · simp [he] at h
+
+/-! ### progress: with a positive packet size every `sendPacketMsg` that serves a channel reduces
+its outstanding work, so a channel drains after finitely many picks -/
+
+/-- outstanding work of the sender side: bytes still to send, plus one per message (the EOF packet
+is owed even for an empty message) -/
+def work (c : Chan) : Nat :=
+  (match c.sending with
+   | none => 0
+   | some s => s.length + 1) + (c.queue.map (fun m => m.length + 1)).sum
+
+theorem work_isSendPending (c : Chan) : work (isSendPending c).2 = work c := by
+  unfold isSendPending work
+  cases hs : c.sending with
+  | none =>
+    cases hq : c.queue with
+    | nil => simp [hs, hq]
+    | cons m q => simp <;> omega
+  | some s => simp [hs]
+
+theorem idle_of_work_zero (c : Chan) (h : work c = 0) : idle c := by
+  unfold work at h
+  unfold idle
+  cases hs : c.sending with
+  | some s => simp [hs] at h
+  | none =>
+    cases hq : c.queue with
+    | nil => exact ⟨rfl, rfl⟩
+    | cons m q => simp [hs, hq] at h
+
+theorem transfer_work (maxSize cap id : Nat) (hmax : 0 < maxSize) (c c' : Chan) (s : Bytes)
+    (hs : c.sending = some s) (ht : transfer maxSize cap id c = some c') : work c' < work c := by
+  unfold transfer nextPacket at ht
+  simp only [hs, Option.getD_some] at ht
+  by_cases hle : s.length ≤ maxSize
+  · simp only [hle, if_true] at ht
+    split at ht
+    · simp at ht
+    · simp only [Option.some.injEq] at ht; subst ht; simp [work, hs] <;> omega
+    · simp only [Option.some.injEq] at ht; subst ht; simp [work, hs] <;> omega
+  · simp only [hle, if_false] at ht
+    have hmin : min maxSize s.length = maxSize := by omega
+    split at ht
+    · simp at ht
+    · simp only [Option.some.injEq] at ht; subst ht; simp [work, hs, hmin] <;> omega
+    · simp only [Option.some.injEq] at ht; subst ht; simp [work, hs, hmin] <;> omega
+
+theorem drain_step (maxSize : Nat) (hmax : 0 < maxSize) (caps : Nat → Nat) (s : Sys) (j : Nat)
+    (herr : s.err = false) (hinv : ∀ i, Inv (caps i) (s.ch i)) (hni : ¬ idle (s.ch j)) :
+    work ((step maxSize caps s (.pkt j)).ch j) < work (s.ch j) := by
+  obtain ⟨hsw, hsome, hidle⟩ := inv_isSendPending _ _ (hinv j)
+  have hp : pending s.ch j = true := by
+    cases h : pending s.ch j with
+    | true => rfl
+    | false => exact absurd (hidle h) hni
+  obtain ⟨sd, hsd⟩ := hsome hp
+  obtain ⟨c', hc', _⟩ := inv_transfer maxSize (caps j) j _ hsw sd hsd
+  obtain ⟨h1, _⟩ := (step_eq_transfer maxSize caps s j herr hp).1 c' hc'
+  rw [h1, upd_same]
+  have h2 : work (sweep s.ch j) = work (s.ch j) := work_isSendPending _
+  exact Nat.lt_of_lt_of_eq (transfer_work maxSize (caps j) j hmax _ c' sd hsd hc') h2
+
+theorem drain (maxSize : Nat) (hmax : 0 < maxSize) (caps : Nat → Nat) (j : Nat) :
+    ∀ (w : Nat) (s : Sys), s.err = false → (∀ i, Inv (caps i) (s.ch i)) → work (s.ch j) ≤ w →
+      ∃ n, idle ((run maxSize caps s (List.replicate n (.pkt j))).ch j) := by
+  intro w
+  induction w with
+  | zero =>
+    intro s _ _ hw
+    have h0 : work (s.ch j) = 0 := by omega
+    exact ⟨0, idle_of_work_zero (s.ch j) h0⟩
+  | succ w ih =>
+    intro s herr hinv hw
+    by_cases hi : idle (s.ch j)
+    · exact ⟨0, hi⟩
+    · have hlt := drain_step maxSize hmax caps s j herr hinv hi
+      obtain ⟨he', hinv'⟩ := inv_step maxSize caps s (.pkt j) (fun i m h => by simp at h) herr hinv
+      obtain ⟨n, hn⟩ := ih (step maxSize caps s (.pkt j)) he' hinv' (by omega)
+      exact ⟨n + 1, by simpa [run, List.replicate_succ] using hn⟩
+
+theorem sentOn_append (j : Nat) (as bs : List Act) : sentOn j (as ++ bs) = sentOn j as ++ sentOn j bs := by
+  induction as with
+  | nil => simp [sentOn]
+  | cons a as ih => rw [List.cons_append, sentOn_cons, ih, sentOn_cons j a as, List.append_assoc]
+
+theorem sentOn_replicate_pkt (j i n : Nat) : sentOn j (List.replicate n (.pkt i)) = [] := by
+  induction n with
+  | zero => simp [sentOn]
+  | succ n ih => simp [List.replicate_succ, sentOn, ih]
+
+theorem run_append (maxSize : Nat) (caps : Nat → Nat) (s : Sys) (as bs : List Act) :
+    run maxSize caps s (as ++ bs) = run maxSize caps (run maxSize caps s as) bs := by
+  simp [run, List.foldl_append]
+
+/-! ### the rule before the fix of C20-E1 (kept for the regression theorem only) -/
+
+/-- `isSendPending` as it was before the fix: `if len(ch.sending) == 0 { … ch.sending = <-ch.sendQueue }`
+– a length test, so a dequeued empty message is indistinguishable from "nothing in flight". -/
+def isSendPendingOld (c : Chan) : Bool × Chan :=
+  if (c.sending.getD []).length = 0 then
+    match c.queue with
+    | [] => (false, c)
+    | m :: q => (true, { c with sending := some m, queue := q })
+  else (true, c)
+
+/-- `step` with the `isSendPending` rule as a parameter (same text as `KV.MConn.step`) -/
+def stepWith (isp : Chan → Bool × Chan) (maxSize : Nat) (caps : Nat → Nat) (s : Sys) : Act → Sys
+  | .send i m =>
+    { s with ch := upd s.ch i { s.ch i with queue := (s.ch i).queue ++ [m], enq := (s.ch i).enq ++ [m] } }
+  | .pkt i =>
+    if s.err then s else
+    let f : Nat → Chan := fun j => (isp (s.ch j)).2
+    if (isp (s.ch i)).1 then
+      let (p, c) := nextPacket maxSize i (f i)
+      match recvPacket (caps i) c.recving p with
+      | none => { ch := upd f i c, err := true, wire := p :: s.wire }
+      | some (some m, r) =>
+        { ch := upd f i { c with recving := r, delivered := c.delivered ++ [m] }, err := false, wire := p :: s.wire }
+      | some (none, r) => { ch := upd f i { c with recving := r }, err := false, wire := p :: s.wire }
+    else { s with ch := f }
+
+def runWith (isp : Chan → Bool × Chan) (maxSize : Nat) (caps : Nat → Nat) (s : Sys) (acts : List Act) : Sys :=
+  acts.foldl (stepWith isp maxSize caps) s
+
+/-- instantiated with the current rule, `stepWith` IS the model's `step` -/
+theorem stepWith_new (maxSize : Nat) (caps : Nat → Nat) (s : Sys) (a : Act) :
+    stepWith isSendPending maxSize caps s a = step maxSize caps s a := by
+  cases a <;> rfl
+
+theorem runWith_new (maxSize : Nat) (caps : Nat → Nat) (acts : List Act) :
+    ∀ s : Sys, runWith isSendPending maxSize caps s acts = run maxSize caps s acts := by
+  induction acts with
+  | nil => intro s; rfl
+  | cons a acts ih => intro s; simp only [runWith, run, List.foldl_cons, stepWith_new] at ih ⊢; exact ih _
 
 end KV.MConn
